@@ -77,11 +77,20 @@ def gen_program(rnd, pid, cls='A', nrt_only=False, feats=('send', 'tempo', 'spaw
                     body.append(I('P', s=k, c=''))
                 order.append(k)
             elif x < 0.78 and clocks and 'tempo' in feats:
+                kind = rnd.random()
                 if cls == 'A':
                     tc = rnd.choice(list(clocks))
-                    body.append(I('T', c=tc, **dict(zip('ab', rnd.choice(TEMPI)))))
+                    if kind < 0.15 and nrt_only:
+                        body.append(I('ET', c=tc, **dict(zip('ab', rnd.choice(TEMPI)))))
+                    elif kind < 0.3 and tc == c:
+                        body.append(I('TB', c=tc, a=rnd.choice([0, 0, -TU, -4 * TU, -TU // 2])))
+                    else:
+                        body.append(I('T', c=tc, **dict(zip('ab', rnd.choice(TEMPI)))))
                 elif c in clocks and tempo_owner.setdefault(c, r) == r:
-                    body.append(I('T', c=c, **dict(zip('ab', rnd.choice(TEMPI)))))
+                    if kind < 0.2:
+                        body.append(I('TB', c=c, a=rnd.choice([0, 0, -TU, -4 * TU, -TU // 2])))
+                    else:
+                        body.append(I('T', c=c, **dict(zip('ab', rnd.choice(TEMPI)))))
             elif x < 0.8 and 'stop' in feats:
                 cands = [o for o in roots if o != r and home.get(o) == c]
                 if cands:
@@ -286,6 +295,6 @@ def nontrivial(prog):
     """program with a tempo change, a cross-clock spawn or a nested/None-latency send"""
     for body in prog['routines'].values():
         for i in body:
-            if i['op'] in ('T', 'X', 'K', 'KC', 'W', 'ST') or (i['op'] == 'P' and i['a']) or (i['op'] == 'P' and i['c']) or (i['op'] == 'S' and (i['nk'] or i['b'])):
+            if i['op'] in ('T', 'ET', 'TB', 'X', 'K', 'KC', 'W', 'ST') or (i['op'] == 'P' and i['a']) or (i['op'] == 'P' and i['c']) or (i['op'] == 'S' and (i['nk'] or i['b'])):
                 return True
     return False
